@@ -17,11 +17,11 @@ def sh(cmd, cwd=None, env=None, timeout=1200):
 
 
 def confirm(pid, k):
-    src = '/tmp/wt/%s/_out' % pid
+    src = '%s/%s/_out' % (os.environ.get('SEED_SRC', '/tmp/wt'), pid)
     patch, demo, note = ['%s/%s%d.%s' % (src, a, k, b) for a, b in (('patch', 'diff'), ('demo', 'py'), ('note', 'md'))]
     if not (os.path.exists(patch) and os.path.exists(demo)):
         return pid, k, 'missing'
-    wt = '/tmp/cf/%s-%d' % (pid, k)
+    wt = '/tmp/cf/%s-%d' % (pid, k + int(os.environ.get('SEED_OFFSET', '0')))
     shutil.rmtree(wt, True)
     os.makedirs('/tmp/cf', exist_ok=True)
     sh('git -C /repo worktree prune; git -C /repo worktree add -q --detach %s HEAD' % wt)
@@ -30,7 +30,7 @@ def confirm(pid, k):
     try:
         shutil.copy(demo, wt + '/_demo.py')
         # demos may mention the agent's worktree path explicitly
-        txt = open(wt + '/_demo.py').read().replace('/tmp/wt/%s' % pid, wt)
+        txt = open(wt + '/_demo.py').read().replace('%s/%s' % (os.environ.get('SEED_SRC', '/tmp/wt'), pid), wt)
         open(wt + '/_demo.py', 'w').write(txt)
         rc0, out0 = sh('%s _demo.py' % PY, wt, env, 300)
         res['demo_clean_rc'] = rc0
@@ -46,7 +46,7 @@ def confirm(pid, k):
         ok = rc0 == 0 and rca == 0 and rct == 0 and res['tests_passed'] == 31 and rc1 != 0
         res['confirmed'] = ok
         if ok:
-            dst = '/verif/seeded/%s-%d' % (pid, k)
+            dst = '/verif/seeded/%s-%d' % (pid, k + int(os.environ.get('SEED_OFFSET', '0')))
             os.makedirs(dst, exist_ok=True)
             shutil.copy(patch, dst + '/patch.diff')
             shutil.copy(demo, dst + '/demo.py')
